@@ -751,9 +751,13 @@ where
         }
     }
 
-    let mut outer = Outer::default();
-    let mut tokens: VecDeque<_> = Some(tree.as_token()).into_iter().collect();
-    while let Some(token) = tokens.pop_front() {
+    // The neighbors of a branch token are inherited by the tokens at the edges of its
+    // sub-globs. This context is queued together with each sub-glob so that it is never shared
+    // with unrelated (sibling) branch tokens.
+    let mut tokens: VecDeque<_> = Some((tree.as_token(), Outer::default()))
+        .into_iter()
+        .collect();
+    while let Some((token, outer)) = tokens.pop_front() {
         use BranchKind::{Alternation, Repetition};
 
         for (left, token, right) in token
@@ -764,7 +768,7 @@ where
         {
             match token.as_branch() {
                 Some(Alternation(ref alternation)) => {
-                    outer = outer.or(left, right);
+                    let outer = outer.or(left, right);
                     let diagnose = diagnose(tree.expression(), token, "in this alternation");
                     for token in alternation.tokens() {
                         let concatenation = token.concatenation();
@@ -773,10 +777,10 @@ where
                             check_alternation(terminals, outer).map_err(diagnose)?;
                         }
                     }
-                    tokens.extend(alternation.tokens());
+                    tokens.extend(alternation.tokens().iter().map(|token| (token, outer)));
                 },
                 Some(Repetition(ref repetition)) => {
-                    outer = outer.or(left, right);
+                    let outer = outer.or(left, right);
                     let diagnose = diagnose(tree.expression(), token, "in this repetition");
                     let token = repetition.token();
                     let concatenation = token.concatenation();
@@ -785,7 +789,7 @@ where
                         check_repetition(terminals, outer, repetition.variance())
                             .map_err(diagnose)?;
                     }
-                    tokens.push_back(token);
+                    tokens.push_back((token, outer));
                 },
                 _ => {},
             }
